@@ -220,6 +220,10 @@ class CtlSim:
     # ------------------------------------------------------------------ server
     def address(self, srv=1):
         if self.cfg.get("transport", "tcp") == "unix":
+            if self.cfg.get("relpath"):
+                # a short RELATIVE socket path used from a deep working directory (its absolute form would not fit
+                # into an AF_UNIX address): the process runs inside self.tmpdir for the duration of the run
+                return ("unix", "ctl.sock" if srv == 1 else "ctl2.sock")
             return ("unix", os.path.join(self.tmpdir, "ctl.sock" if srv == 1 else "ctl2.sock"))
         return ("tcp", self.cfg.get("host", "127.0.0.1"), 9999 if srv == 1 else 9998)
 
@@ -618,6 +622,14 @@ class CtlSim:
         gc_was = gc.isenabled()
         gc.disable()
         self.tmpdir = tempfile.mkdtemp(prefix="tpsim-")
+        self._old_cwd = None
+        if self.cfg.get("relpath") and self.cfg.get("transport") == "unix":
+            self._tmproot = self.tmpdir
+            self.tmpdir = os.path.join(self.tmpdir, "w" * 60, "d" * 60)
+            os.makedirs(self.tmpdir)
+            self._old_cwd = os.getcwd()
+            os.chdir(self.tmpdir)
+            self.stats["probe:relative_socket_path_in_deep_directory"] += 1
         from .hermetic import reset_library_state
         reset_library_state()
         from asyncio_taskpool.control import client as cmod
@@ -672,6 +684,9 @@ class CtlSim:
                     cmod.__dict__.pop(k, None)
                 else:
                     cmod.__dict__[k] = v
+            if self._old_cwd is not None:
+                os.chdir(self._old_cwd)
+                shutil.rmtree(self._tmproot, ignore_errors=True)
             shutil.rmtree(self.tmpdir, ignore_errors=True)
             if gc_was:
                 gc.enable()
